@@ -113,15 +113,16 @@ deriving DecidableEq, Repr
 
 def Entry.hasKey (e : Entry) (cid : Nat) (ikey : List Char) : Bool := e.cid == cid && e.ikey == ikey
 
-/-- `get(call_id, auth, now)` -/
-def Cache.get (c : Cache) (cid : Nat) (ikey : List Char) (now : Nat) : Cache × Option RC :=
+/-- `get(call_id, auth, now)`; `refresh = some x`: a hit re-stores the entry with expiry `x` (`now + self._ttl`) -/
+def Cache.get (c : Cache) (cid : Nat) (ikey : List Char) (now : Nat) (refresh : Option Nat) : Cache × Option RC :=
   match c.entries.find? (·.hasKey cid ikey) with
   | none => (c, none)
   | some e =>
     if Gen.C14.entryDead e.expires now then
       ({ c with entries := c.entries.filter (fun x => !x.hasKey cid ikey) }, none)
     else
-      ({ c with entries := c.entries.filter (fun x => !x.hasKey cid ikey) ++ [e] }, some e.rc)
+      ({ c with entries := c.entries.filter (fun x => !x.hasKey cid ikey) ++ [{ e with expires := refresh.getD e.expires }] },
+       some e.rc)
 
 /-- `put(call_id, auth, resolved, now)` with `expires = now + ttl` already computed -/
 def Cache.put (c : Cache) (cid : Nat) (ikey : List Char) (rc : RC) (expires : Nat) : Cache :=
@@ -133,6 +134,10 @@ def expiry (cfg : Cfg) (a : Anchor) (now created : Nat) : Nat :=
   (match a with
    | .now => now
    | .created => if cfg.ttl > 0 then created * cfg.tps else now) + Gen.C14.cacheTtl cfg.ttl * cfg.tps
+
+/-- what `get` does to a hit's expiry, per the extracted shape -/
+def hitRefresh (cfg : Cfg) (now : Nat) : Option Nat :=
+  if cfg.shape.hitRefreshes then some (now + Gen.C14.cacheTtl cfg.ttl * cfg.tps) else none
 
 /-! ### workers -/
 
@@ -210,7 +215,7 @@ def serveCont (cfg : Cfg) (W : World) (w : Nat) (rq : Req) : World × Outcome :=
   match openCursor cfg W rq with
   | .error r => (W, .rejected r)
   | .ok c =>
-    match (W.cache w).get c.cid (identKey rq.ident) W.now with
+    match (W.cache w).get c.cid (identKey rq.ident) W.now (hitRefresh cfg W.now) with
     | (cache1, some rc) =>
       if cfg.shape.hitChecksMethod && rc.method != rq.method then (W.setCache w cache1, .rejected .tokenRejected)
       else if cfg.shape.hitChecksType && !typeOk cfg rq.method rc then (W.setCache w cache1, .rejected .callType)
